@@ -268,7 +268,10 @@ def f_tsame(a):
         return e
     t = build_fst(a["T"], a["sr"], a.get("style", "int"))
     e["T"] = a["T"]
-    if k == "transpose":
+    if k == "prune":
+        e["keepA"], e["keepB"] = a["keepA"], a["keepB"]
+        e["out"] = fst_proj(t.prune_to_alphabet({unt(x) for x in a["keepA"]}, {unt(x) for x in a["keepB"]}))
+    elif k == "transpose":
         e["out"] = fst_proj(t.T)
     elif k in ("project0", "project1"):
         e["out"] = wfsa_proj(t.project(int(k[-1])))
